@@ -234,6 +234,24 @@ Definition directive_decls (s : sdocument) (x : directive) : option (list input_
 Definition v_known_argument_names (s : sdocument) (d : document) : bool :=
   existsb (fun fe => v_args_unknown (field_decls fe) (sel_args (fst fe))) (field_events s d) ||
   existsb (fun x => v_args_unknown (directive_decls s x) (d_args x)) (directive_events s d).
+(* the owners (as an error message names them: "Type.field" or "@directive") of the undeclared
+   arguments of the document *)
+Definition unknown_argument_owners (s : sdocument) (d : document) : list string :=
+  flat_map (fun fe : selection * env =>
+              match a_parent (snd fe) with
+              | Some pt =>
+                  match field_by_name pt (sel_name (fst fe)) with
+                  | Some fd => if v_args_unknown (Some (fd_args fd)) (sel_args (fst fe))
+                               then [(td_name pt ++ "." ++ fd_name fd)%string] else []
+                  | None => []
+                  end
+              | None => []
+              end) (field_events s d) ++
+  flat_map (fun x => match directive_by_name s (d_name x) with
+                     | Some dd => if v_args_unknown (Some (dd_args dd)) (d_args x) then [("@" ++ dd_name dd)%string] else []
+                     | None => []
+                     end) (directive_events s d).
+
 Definition v_unique_argument_names (s : sdocument) (d : document) : bool :=
   existsb (fun fe : selection * env => v_args_duplicated (sel_args (fst fe))) (field_events s d) ||
   existsb (fun x => v_args_duplicated (d_args x)) (directive_events s d).
